@@ -4,6 +4,11 @@ package main
 // (key bytes, message bytes, signature bytes): a fresh boolean per distinct triple on a path. The
 // harness reads the same predicate through verifrt.SigVerdict to state what was verified.
 
+type sigApp struct {
+	pk, msg, sig []*Term
+	r            *Term
+}
+
 func (i *interpreter) sigVerdict(pk, msg, sig []value) value {
 	key := "sig:" + bytesKey(pk) + "|" + bytesKey(msg) + "|" + bytesKey(sig)
 	if t, ok := i.hostData[key]; ok {
@@ -17,6 +22,33 @@ func (i *interpreter) sigVerdict(pk, msg, sig []value) value {
 		r = i.newVar("bool", sortBool)
 	}
 	i.hostData[key] = r
+	// functional consistency (Ackermann): the same triple, however it was computed, has the same verdict
+	f := i.tf
+	terms := func(bs []value) []*Term {
+		out := make([]*Term, len(bs))
+		for k, b := range bs {
+			out[k] = i.byteTerm(b)
+		}
+		return out
+	}
+	app := sigApp{pk: terms(pk), msg: terms(msg), sig: terms(sig), r: i.boolTerm(r)}
+	apps, _ := i.hostData["sigApps"].([]sigApp)
+	eqAll := func(a, b []*Term) *Term {
+		acc := f.Bool(true)
+		for k := range a {
+			acc = f.And(acc, f.Eq(a[k], b[k]))
+		}
+		return acc
+	}
+	for _, prev := range apps {
+		if len(prev.pk) != len(app.pk) || len(prev.msg) != len(app.msg) || len(prev.sig) != len(app.sig) {
+			continue
+		}
+		same := f.And(eqAll(prev.pk, app.pk), f.And(eqAll(prev.msg, app.msg), eqAll(prev.sig, app.sig)))
+		i.addPC(f.Or(f.Not(same), f.Eq(prev.r, app.r)))
+		i.path.invalidateModel()
+	}
+	i.hostData["sigApps"] = append(apps, app)
 	return r
 }
 
